@@ -510,6 +510,27 @@ let run_pjsondec payload =
      | DFuel -> L [A "out-of-fuel"])
   | _ -> failwith "pjsondec payload"
 
+(* ---- policy-set JSON ---- *)
+let run_psjsonenc payload =
+  match payload with
+  | [L (A "policies" :: ps)] ->
+    let l = List.map (fun p -> let (id, pol) = policy_of_sx p in (str_of_atom id, (annots_of_policy_sx p, pol))) ps in
+    L [A "tree"; sx_of_json (enc_policy_set print_ip (fun l -> l) l)]
+  | _ -> failwith "psjsonenc payload"
+
+let run_psjsondec payload =
+  match payload with
+  | [t] ->
+    (match dec_policy_set (json_of_sx t) with
+     | DOk l ->
+       let l = List.sort (fun (a, _) (b, _) -> compare (atom_of_str a) (atom_of_str b)) l in
+       L [A "ok"; L (A "policies" :: List.map (fun (id, (annots, pol)) ->
+           sx_of_policy (atom_of_str id) (L (A "annots" :: List.map (fun (k, v) -> L [A (atom_of_str k); A (atom_of_str v)]) annots)) pol) l)]
+     | DErr -> L [A "err"]
+     | DUnk -> L [A "unmodelled"]
+     | DFuel -> L [A "out-of-fuel"])
+  | _ -> failwith "psjsondec payload"
+
 (* ---- schema resolution ---- *)
 let rec sty_of_sx (s : Sexp.t) : sty =
   match s with
@@ -810,6 +831,8 @@ let run_case kind payload =
   | "stparse" -> run_stparse payload
   | "stprint" -> run_stprint payload
   | "schemaresolve" -> run_schemaresolve payload
+  | "psjsonenc" -> run_psjsonenc payload
+  | "psjsondec" -> run_psjsondec payload
   | "pjsonenc" -> run_pjsonenc payload
   | "pjsondec" -> run_pjsondec payload
   | "jsonenc" -> run_jsonenc payload
